@@ -6,10 +6,7 @@
                                (column_number_to_name is modelled in Col26.v, written by agent c14)
      src/xlsx/mod.rs           get_row_and_optional_column, get_row_column, get_dimension as of the
                                C06 hardening (u64 saturating accumulators, u32::try_from -> Err,
-                               saturating_sub in get_dimension): modelled HERE as sf_... (local copy of
-                               the scanner; Col26.v still carries the scanner of the previous tree
-                               and is being resynced by its owner; the record scan_state, the error
-                               classes, split_on and the character predicates are Col26's)
+                               saturating_sub in get_dimension): modelled in Col26.v (resynced)
      src/lib.rs                Dimensions::contains
      src/xlsx/cells_reader.rs  next_formula: the shared-formula part (the `formulas` map keyed by
                                si, a group = master text + declared ref + master position, the
@@ -183,82 +180,11 @@ Fixpoint scan_bracket (l : list N) (depth : N) : outcome (list N * list N) :=
       else do r <- scan_bracket t d; Ok (x :: fst r, snd r)
   end.
 
-(* ------------------------------------------------------------------ MODEL: get_row_and_optional_column (HEAD) *)
-(*  let (mut row, mut col) = (0u64, 0u64); let mut pow = 1u64; let mut readrow = true;
-    for c in range.iter().rev() { match *c {
-      b'0'..=b'9' => if readrow { row = row.saturating_add(((c - b'0') as u64).saturating_mul(pow));
-                                  pow = pow.saturating_mul(10); } else { return Err(NumericColumn) }
-      b'A'..=b'Z' | b'a'..=b'z' => { if readrow { if row == 0 { return Err(RangeWithoutRowComponent) }
-                                                  pow = 1; readrow = false; }
-                                     col = col.saturating_add(((c - base) as u64 + 1).saturating_mul(pow));
-                                     pow = pow.saturating_mul(26); }
-      _ => return Err(Alphanumeric) } }
-   No arithmetic of this function can panic any more. *)
-Definition sat_add64 (a b : N) : N := N.min (a + b) U64MAX.      (* u64::saturating_add *)
-Definition sat_mul64 (a b : N) : N := N.min (a * b) U64MAX.      (* u64::saturating_mul *)
-Definition E_OUT_OF_RANGE : N := 7.
-
-Definition sf_scan_letter (base c : N) (s : scan_state) : outcome scan_state :=
-  do s1 <- (if s_readrow s then
-              if s_row s =? 0 then Err E_NO_ROW
-              else Ok {| s_row := s_row s; s_col := s_col s; s_pow := 1; s_readrow := false |}
-            else Ok s);
-  Ok {| s_row := s_row s1;
-        s_col := sat_add64 (s_col s1) (sat_mul64 (c - base + 1) (s_pow s1));
-        s_pow := sat_mul64 (s_pow s1) 26; s_readrow := false |}.
-
-Definition sf_scan_char (c : N) (s : scan_state) : outcome scan_state :=
-  if is_digit c then
-    if s_readrow s then
-      Ok {| s_row := sat_add64 (s_row s) (sat_mul64 (c - ch_0) (s_pow s)); s_col := s_col s;
-            s_pow := sat_mul64 (s_pow s) 10; s_readrow := true |}
-    else Err E_NUMERIC_COLUMN
-  else if is_upper c then sf_scan_letter ch_A c s
-  else if is_lower c then sf_scan_letter ch_a c s
-  else Err E_ALPHANUMERIC.
-
-(* the loop runs over range.iter().rev(): [rs] is the reversed input *)
-Fixpoint sf_scan_loop (rs : list N) (s : scan_state) : outcome scan_state :=
-  match rs with
-  | [] => Ok s
-  | c :: t => do s' <- sf_scan_char c s; sf_scan_loop t s'
-  end.
-
-(*  let row = row.checked_sub(1).ok_or(RangeWithoutRowComponent)?;
-    let row = u32::try_from(row).map_err(..)?;
-    let col = col.checked_sub(1).map(u32::try_from).transpose().map_err(..)?; *)
-Definition sf_get_row_and_optional_column (range : list N) : outcome (N * option N) :=
-  do s <- sf_scan_loop (rev range) scan_init;
-  if s_row s =? 0 then Err E_NO_ROW
-  else if U32MAX <? s_row s - 1 then Err E_OUT_OF_RANGE
-  else if s_col s =? 0 then Ok (s_row s - 1, None)
-  else if U32MAX <? s_col s - 1 then Err E_OUT_OF_RANGE
-  else Ok (s_row s - 1, Some (s_col s - 1)).
-
-Definition sf_get_row_column (range : list N) : outcome (N * N) :=
-  do rc <- sf_get_row_and_optional_column range;
-  match snd rc with
-  | Some c => Ok (fst rc, c)
-  | None => Err E_NO_COLUMN
-  end.
-
-(* ------------------------------------------------------------------ MODEL: get_dimension (HEAD) *)
-Fixpoint sf_collect_parts (ps : list (list N)) : outcome (list (N * N)) :=
-  match ps with
-  | [] => Ok []
-  | p :: t => do x <- sf_get_row_column p; do xs <- sf_collect_parts t; Ok (x :: xs)
-  end.
-
-(*  parts[1].0.saturating_sub(parts[0].0) and the column counterpart only feed warn!(): an
-    inverted range ("B2:A1") is returned as it stands, start > end *)
-Definition sf_get_dimension (dimension : list N) : outcome ((N * N) * (N * N)) :=
-  do parts <- sf_collect_parts (split_on ch_colon dimension []);
-  match parts with
-  | [] => Err E_DIMENSION_COUNT
-  | [p] => Ok (p, p)
-  | [p0; p1] => Ok (p0, p1)
-  | _ => Err E_DIMENSION_COUNT
-  end.
+(* ------------------------------------------------------------------ MODEL: get_row_column, get_dimension *)
+(* get_row_and_optional_column / get_row_column / get_dimension as of the C06 hardening (u64
+   saturating accumulators, u32::try_from -> Err, an inverted range "B2:A1" returned as it stands)
+   are Col26.get_row_and_optional_column / Col26.get_row_column / Col26.get_dimension: Col26.v was
+   resynced to that code, so the local copy (sf_...) that stood here is gone. *)
 
 Section Model.
 (* char::is_alphanumeric — an oracle, see the header *)
@@ -335,7 +261,7 @@ Definition cell_step (fs : fmap) (pos : N * N) (k : fkind) : outcome (fmap * lis
   | FPlain f => Ok (fs, f)
   | FSharedBad => Err E_SI
   | FMaster si ref f =>
-      do d <- sf_get_dimension ref;                 (* errors propagate; an inverted ref is kept:
+      do d <- get_dimension ref;                    (* errors propagate; an inverted ref is kept:
                                                        it contains no cell *)
       Ok (fm_insert fs si (f, (d, pos)), f)
   | FMember si own =>
